@@ -341,9 +341,15 @@ PROPS["C19"] = {
                     "mut_0", "mut_1", "mut_2", "mut_3", "mut_4", "mut_5", "mut_6"],
     "assumptions": ["the heap-backed mapping behaves like a private read-only mapping of the same bytes"],
     "tiers": {
-        "quick": [{"mode": "enum", "kv": {"full": 0}, "note": "bases 0,1 and a third of the others"}, {"mode": "rc", "cases": 1500, "max_size": 100}],
+        "quick": [{"mode": "enum", "kv": {"full": 0}, "note": "bases 0,1 and a third of the others"}, {"mode": "rc", "cases": 1500, "max_size": 100},
+                  {"mode": "fuzz", "target": "fuzz/fuzz_open.cpp", "seeds": "c19", "runs": 60000, "max_len": 2048, "workers": 8,
+                   "note": "libFuzzer, structure-aware input (base selector + field mutations | raw file), seeded corpus"}],
         "thorough": [{"mode": "enum", "kv": {"full": 1}, "exhaustive": True, "note": "all 12 base files x 5 fields x verify on/off"},
-                     {"mode": "rc", "cases": 40000, "max_size": 100}],
+                     {"mode": "rc", "cases": 40000, "max_size": 100},
+                     {"mode": "fuzz", "target": "fuzz/fuzz_open.cpp", "seeds": "c19", "runs": 1500000, "max_len": 4096, "workers": 12,
+                      "note": "libFuzzer, seeded corpus"},
+                     {"mode": "fuzz", "target": "fuzz/fuzz_open.cpp", "runs": 1500000, "max_len": 4096, "workers": 4, "value_profile": 1,
+                      "note": "libFuzzer, empty corpus, value profile"}],
     },
 }
 
